@@ -13,6 +13,7 @@ import DSV.Model.GcRace
 import DSV.Model.Reader
 import DSV.Model.CommitFault
 import DSV.Model.Fs
+import DSV.Model.Path
 /-!
 Line-protocol driver: one request per line on stdin, one reply per line on stdout.
 First token selects the model function.  Imports only `DSV.Model.*` (core Lean), so it links natively.
@@ -858,6 +859,28 @@ def handleFsJudge (args : List String) : String :=
       | some i => s!"violation at event {i}"
   | _, _ => "bad-op"
 
+/-! #### path containment -/
+open DSV.Path in
+def handlePath (cmd : String) (args : List String) : String :=
+  match cmd, args with
+  | "path.resolve", [b, p] =>
+      match decStr b, decStr p with
+      | some base, some path =>
+          let bc := (splitSlash base).filter (· ≠ [])
+          match resolveLex bc path with
+          | some q => "ok " ++ encStr (joinStr q)
+          | none => "raise"
+      | _, _ => "bad-op"
+  | "path.arrow", [b, p] =>
+      match decStr b, decStr p with
+      | some base, some path =>
+          let bc := (splitSlash base).filter (· ≠ [])
+          match arrowPath bc path with
+          | some q => "ok " ++ encStr (joinStr q)
+          | none => "raise"
+      | _, _ => "bad-op"
+  | _, _ => "bad-op"
+
 def handle (line : String) : String :=
   match splitWs line with
   | [] => "bad-op"
@@ -872,6 +895,7 @@ def handle (line : String) : String :=
     else if cmd = "rd.get" then handleRd args
     else if cmd = "cf.outcome" then handleCf args
     else if cmd = "fs.judge" then handleFsJudge args
+    else if cmd.startsWith "path." then handlePath cmd args
     else if cmd.startsWith "gc." then handleGc cmd args
     else if cmd = "occ.trace" then handleOcc args
     else if cmd = "create.trace" then handleCreate args
